@@ -59,6 +59,14 @@ CHECKS.update({
             "Real BanMan on banlist.json under a simulated clock: Ban (address/subnet, relative/absolute/default durations), Unban, Discourage, ClearBanned, clock jumps exactly onto expiry +-1 s, clean restart, crash restart (no destructor), deleted/torn ban file; after every mutating op every reference entry is re-queried at its network/last/sibling/first-host-bit addresses and embedded forms against an own bit-wise prefix matcher; string and BIP155 round trips of every generated address/subnet are checked in passing.",
             "Only the ban-store part of C60 has a clock/restart/fault in it; the pure round-trip clauses are exercised only as far as the ban store touches them. Discouragement checked only in the 'stays discouraged' direction within filter capacity. One known finding (fc-prefixed IPv6 subnets with CJDNS reachable) is listed in known_findings.txt.",
             COMP_TECH, "DESIGN.md §5 C60"),
+    "C38": ("compsim/cmpctblock", "exploration",
+            "Real PartiallyDownloadedBlock/CBlockHeaderAndShortTxIDs/BlockTransactionsRequest (every message round-tripped through its wire codec) against a standalone mempool and extra-transaction ring churned by seeded ops, an adversarial announcer (prefilled-index games, tx-list lies incl. CVE-2012-2459 tail duplication, duplicate/decoy/random short ids) and an adversarial responder (wrong/reordered/short/long blocktxn); FillBlock == OK implies exactly the announced header and transaction list, merkle-unmutated, witness commitment intact; an honest announcement + honest response of a well-formed block must reconstruct.",
+            "Component level only: the in-situ clause (block stored under hash H at a real node) is not decided here. Real 48-bit short-id collisions are reached through one offline-searched fixture (two pool transactions colliding under a fixed block key); collisions involving a block transaction are out of reach.",
+            COMP_TECH, "DESIGN.md §5 C38"),
+    "C52": ("compsim/http", "exploration",
+            "The same request byte stream (grammar-generated: pipelined requests, Content-Length and chunked bodies with extensions/trailers, 15 line-level and 12 chunk-framing defects, header sections padded to the 8192-byte limit, byte-level mutations) is delivered 1-11 times under different fragmentations (fixed k, random, cuts at line/chunk boundaries +-2, single cut anywhere) to the real incremental parser, and in server mode to the real HTTPServer socket loop over simulated sockets (short sends, EAGAIN, EPIPE, resets, worker latency): every delivery must dispatch the same request sequence / same error as single-chunk delivery and as an independent whole-stream reference parser; disallowed client addresses get nothing; the JSON-RPC handler runs only with valid credentials.",
+            "The static URL dispatcher and the HTTP worker thread pool are replaced by a recording dispatcher answering at I/O-loop iteration boundaries (no real threads); httprpc.cpp is compiled a second time inside the engine (internal linkage), with its 250 ms sleep turned into simulated time; idle timeout (real steady clock) disabled.",
+            COMP_TECH + " and simulated sockets (Sock seam)", "DESIGN.md §5 C52"),
 })
 
 PURE = "pure function of its input: no schedule, clock, fault, peer or store in it (DESIGN.md §6)"
